@@ -12,17 +12,41 @@ CFG = {
                   "RenominateCandidate sends (USE-CANDIDATE, ICE-CONTROLLING, value iff > 0) only on a controlling agent with the "
                   "feature enabled and an existing pair, otherwise changes nothing. The existing tests feed ordered requests on an "
                   "already valid pair; the theorems cover every arrival order, duplication and validity state.",
-    "level_note": "Single-agent clauses are proved here. The two-agent consequence C20_quiescent_agreement (both agents select the "
-                  "mirror pair carrying the highest value issued) is proved in IceProps on IceModel.Sys2 by another module; "
+    "level_note": "Single-agent clauses are proved at full strength. The two-agent sentence ('when the exchange has quiesced both "
+                  "agents have selected the mirror-image pair carrying the highest nomination value the controlling agent "
+                  "issued') is FALSE for the code as written in the property text; what is proved, on the closed system Sys2 (two "
+                  "AgentCore agents + datagram hub with NAT, blocks, loss, duplication) for ALL schedules of an exchange "
+                  "(IceProofs/Sys2C20*.lean, restated in IceProps/C20.lean): from two fresh agents, any schedule to a state in "
+                  "which the session is Established (A controlling, B controlled and full, both started, A has a selected pair, "
+                  "no nomination of either kind in flight, nothing outstanding or deferred), then any schedule without Restart / "
+                  "Close along which the roles are kept and nobody is Failed: (a) C20_accepted_le_issued - every value B accepted "
+                  "was issued by A's RenominateCandidate; (b) C20_controlled_selects_max_accepted - B's highest accepted value v "
+                  "was issued on a pair (la, ra), was accepted on the mirror image of that pair modulo NAT, and that pair is B's "
+                  "selected pair or still holds v as a deferred nomination, in every state, for every arrival order, duplication "
+                  "and loss; (c) C20_controlling_selects_last_answered - A's selected pair is the pair of the nomination whose "
+                  "success response A processed LAST; (d) C20_quiescent_agreement_partial - in a quiesced state (no valued message "
+                  "in flight, no valued transaction outstanding at A, no deferred nomination waiting at B), if x is the unique "
+                  "highest nomination and the response A processed last is x's (hA), then A is on x's pair and B on its mirror "
+                  "image (that B has accepted x's value follows: C20_answered_le_accepted, by an invariant over transaction "
+                  "ids); (e) C20_quiesced_rests - a quiesced state stays quiesced and both selections stay, under every "
+                  "continuation without a new RenominateCandidate. Every extra hypothesis is forced: three witness theorems (concrete Sys2 "
+                  "runs evaluated by the kernel) show the conclusion false without hA (responses processed out of order, values "
+                  "1 < 2 issued in order), without 'no ordinary nomination in flight' (a delayed ordinary nomination moves B back "
+                  "after the renomination) and without 'no deferred-nomination mark at B' (the mark nominateOnBindingSuccess is "
+                  "never cleared: the next success response on the old pair, e.g. of a keepalive, moves B back); further examples: "
+                  "non-increasing values (B rejects but answers, A switches), loss (a nomination is never retransmitted). All five "
+                  "are replayed on the real agents (corpus/C20/agent.ops sessions C20sys-W1..W4, model = code, 0 mismatches) and "
+                  "reported as findings in notes/C20sys.md (disagreement of the two selections at quiescence under pure "
+                  "reordering). "
                   "C20_codec (values < 2^24 survive the attribute encoding) is proved with the attribute-codec model of C16. The "
                   "model is tied to the code by the differential correspondence of component 'agent' (real agent under synctest vs "
                   "AgentCore.step); corpus/C20/agent.ops holds the two F8 scenarios (deferred acceptance used to ignore the "
                   "nomination value; fixed in /repo by 'fix: honour renomination values when a deferred nomination completes', "
-                  "the model follows the fixed code) and is replayed first on every run. Trusted: Lean kernel (axioms propext / "
-                  "Classical.choice / Quot.sound), the gotolean translator (pointer arguments encoded as (non-nil, value); "
-                  "assignment to s.lastNomination as an effect), HMAC modelled as perfect, the harness.",
+                  "the model follows the fixed code) and the six two-agent sessions, and is replayed first on every run. Trusted: "
+                  "Lean kernel (axioms propext / Classical.choice / Quot.sound), the gotolean translator (pointer arguments "
+                  "encoded as (non-nil, value); assignment to s.lastNomination as an effect), HMAC modelled as perfect, the harness.",
     "components": [{"component": "agent", "args": "focus=C20", "session_start": "new", "trivial_regex": "^(bad-op.*|ended.*)$", "shrink_s": 40}],
-    "rule": "corpus/C20/agent.ops (F8 scenarios) then agent sessions from the generator of component 'agent' (renominations over "
+    "rule": "corpus/C20/agent.ops (F8 scenarios; two-agent sessions C20sys-ok and C20sys-W1..W4) then agent sessions from the generator of component 'agent' (renominations over "
             "2-4 pairs, nomination requests with values in all arrival orders, duplicated and dropped, on valid and not-yet-valid "
             "pairs); distinct = distinct (operation, implementation digest) lines; non-trivial = executed by the real agent "
             "(not bad-op / ended).",
@@ -36,5 +60,9 @@ CFG = {
                     "with unique pair ids this is the pair findPair returned)",
                     "the selector is re-installed (lastNomination cleared) by an effective start, a restart and a lost role conflict "
                     "only (C20_reset_clears, IceProofs.Agent.step_lastNomination); stability of a run is the decidable predicate "
-                    "`stable`"],
+                    "`stable`",
+                    "two-agent theorems: closed system (agents receive traffic only through the hub), Fresh initial state, "
+                    "Established at the start of the exchange, Exchange along it (no Restart / Close, roles kept, nobody Failed, "
+                    "B full), positive nomination values; the agreement theorem additionally hA (A processed the response of the "
+                    "highest nomination last) and uniqueness of the highest value"],
 }
